@@ -422,6 +422,12 @@ func (c *Context) onCommand(message *messages.NoneArgsCommandMessage) {
 			Type:     reflect.TypeOf(c.actor),
 		})
 	case messages.CommandResumeMailbox:
+		if c.restarting != nil && !c.zombie {
+			// 重启进行中（可能仍在等待子 Actor 终止）：邮箱由重启流程在完成时自行恢复（重启失败的僵尸不在此列，它需要保持邮箱畅通）。
+			// 此刻到达的恢复指令（例如 one-for-all 监管者针对兄弟节点故障下达的 Resume）若被执行，
+			// 排队的用户消息会在 killing 状态下被当作死信丢弃，而不是交给重启后的新实例
+			return
+		}
 		c.mailbox.Resume()
 		// 通知事件流
 		c.EventStream().Publish(c, ves.ActorMailboxResumedEvent{
